@@ -347,6 +347,7 @@ KWB == <<"r", "_", "if">>
 COLA == <<"a", ":", "b">>
 ATTRN == <<"k">>              \* the attribute parameter of the generated function
 ATTR0 == <<"k", "_", "0">>    \* the first alternative _handle_attrname_conflict tries
+ATTR0D == <<"k", ".", "0">>   \* a name that becomes that alternative only after clean-up
 Pos(id) == CHOOSE i \in 1..Len(AllIds) : AllIds[i] = id
 DefaultName(id) == IF id \in SeqSet(Inputs) THEN <<id>> ELSE <<"t", ToString(Pos(id) - Len(Inputs))>>
 Singles == {DOTA, DIGA, KWA}
@@ -361,7 +362,7 @@ Namings ==
                   \cup {{<<"X", p[1]>>, <<g.last, p[2]>>} : p \in FewPairs}
              ELSE {})
        \cup (IF g.attr THEN {{<<i, ATTRN>>} : i \in SeqSet(AllIds) \ SeqSet(Inputs)}
-                            \cup {{<<i, ATTRN>>, <<j, ATTR0>>} : i \in SeqSet(AllIds) \ SeqSet(Inputs),
+                            \cup {{<<i, ATTRN>>, <<j, a0>>} : a0 \in {ATTR0, ATTR0D}, i \in SeqSet(AllIds) \ SeqSet(Inputs),
                                                                   j \in IF g.len <= 1 THEN SeqSet(AllIds) \ SeqSet(Inputs) ELSE {g.last}}
              ELSE {})
 \* the name that needs clean-up sits on the earlier value
@@ -555,11 +556,38 @@ HasCall(ss) == IF ss = <<>> THEN FALSE ELSE
   (CASE s.s \in {"call", "const", "attrconst"} -> TRUE [] s.s = "if" -> HasCall(s.th) \/ HasCall(s.el) [] s.s = "loop" -> HasCall(s.body) [] OTHER -> FALSE)
   \/ HasCall(Tail(ss))
 
+\* Declared type of the graph input X and of the graph outputs (ModelProto only): a scalar, a tensor of unknown
+\* rank, or a shape whose axes are 0, 1, 2, symbolic or unknown.  The run-time tensors have that shape (every
+\* element holds the scalar of the test vector; a symbolic axis has 3 and an unknown axis 2 elements).
+Val(n) == [k |-> "val", v |-> n]
+SymD == [k |-> "sym", v |-> 0]
+UnkD == [k |-> "unk", v |-> 0]
+ScalarT == [form |-> "scalar", dims |-> <<>>]
+AnyRankT == [form |-> "anyrank", dims |-> <<>>]
+DimsT(ds) == [form |-> "dims", dims |-> ds]
+DimMenu == {Val(0), Val(1), Val(2), SymD, UnkD}
+ShapeMenu == {<<a>> : a \in DimMenu} \cup {<<a, b>> : a \in DimMenu, b \in DimMenu}
+\* shapes are explored on the graphs that consist of one elementwise node over X
+ShapeGraph == g.len = 1 /\ g.pk = "op" /\ g.n = 1
+\* onnx_types.onnx_type_to_onnxscript_repr: FLOAT (shape without dims), FLOAT[...] (no shape), FLOAT[d1,...] where a
+\* dimension with dim_value (0 included) prints its value, one with dim_param its quoted name, any other None
+ReprDim(d) == CASE d.k = "val" -> [a |-> "int", v |-> d.v] [] d.k = "sym" -> [a |-> "str", v |-> 0] [] d.k = "unk" -> [a |-> "none", v |-> 0]
+ReprType(t) == CASE t.form = "scalar" -> [ann |-> "bare", subs |-> <<>>]
+                 [] t.form = "anyrank" -> [ann |-> "ellipsis", subs |-> <<>>]
+                 [] t.form = "dims" -> [ann |-> "sub", subs |-> [i \in 1..Len(t.dims) |-> ReprDim(t.dims[i])]]
+\* TensorType.__class_getitem__ / to_type_proto: int -> dim_value, str -> dim_param, None -> neither
+ParseDim(x) == CASE x.a = "int" -> Val(x.v) [] x.a = "str" -> SymD [] x.a = "none" -> UnkD
+ParseType(a) == CASE a.ann = "bare" -> ScalarT
+                  [] a.ann = "ellipsis" -> AnyRankT
+                  [] a.ann = "sub" -> DimsT([i \in 1..Len(a.subs) |-> ParseDim(a.subs[i])])
+\* the annotation of X / of the outputs as printed, and what the generated function declares after parsing it back
+SigAnn == ReprType(cfg.xty)
+SigTypesOK == cfg.kind # "model" \/ ParseType(SigAnn) = cfg.xty
 \* _attribute_param_types: the type of the attribute parameter is the type of a reference to it, looked for in the
 \* function body *and all nested graphs*; a parameter without reference is declared `int`.  The converter refuses
 \* value_float=k for k: int.
 Prog(params, body, rets, dv) == [params |-> params, body |-> body, rets |-> rets, prebound |-> Prebound(dv),
-                                 attrty |-> ex.attrty,
+                                 attrty |-> ex.attrty, sigOK |-> SigTypesOK,
                                  indentBad |-> IndentBad(dv),
                                  deadIf |-> (Has("dead_if_refused", dv) /\ DeadIf(body, ArgNames(rets))),
                                  opsetOK |-> (~Has("no_default_opset", dv) \/ HasCall(body))]
@@ -649,7 +677,8 @@ TypeOf(v) == IF Numeric(v) THEN "f" ELSE v.k
 OutcomeOf(e, exp) == IF e.err # "" THEN "raise"
                      ELSE IF ~Convertible(e.prog) THEN "noconv"
                      ELSE LET r == [t \in 1..Len(TV) |-> PyRun(e.prog, TV[t])] IN
-                          IF \A t \in 1..Len(TV) : r[t] = exp[t] THEN "ok"
+                          IF ~e.prog.sigOK THEN "diff"                      \* declared inputs / outputs changed
+                          ELSE IF \A t \in 1..Len(TV) : r[t] = exp[t] THEN "ok"
                           ELSE IF \E t \in 1..Len(TV), j \in 1..Len(Outs) : TypeOf(r[t][j]) # TypeOf(exp[t][j]) THEN "noconv"
                           ELSE "diff"
 
@@ -666,10 +695,11 @@ Kinds == (IF g.inits = <<>> THEN {"function"} ELSE {}) \cup (IF g.attr THEN {} E
 \* The configuration space is not the full product: the option product is explored with default names and
 \* types; the namings with and without rename only; the declared-type forms with default options only.
 \* Quick tier, two-item graphs: after a constant only the inline_const half of the options.
-ConfigOK(c) == /\ \/ (c.naming = {} /\ c.xty = "scalar")
-                  \/ (c.naming # {} /\ ~c.useops /\ (c.inline => g.inits # <<>>) /\ ~c.skip /\ c.xty = "scalar")
-                  \/ (c.naming = {} /\ c.xty # "scalar" /\ ~c.rename /\ ~c.useops /\ ~c.inline /\ ~c.skip)
-               /\ (g.len >= 2 => c.xty = "scalar")
+ConfigOK(c) == /\ \/ (c.naming = {} /\ c.xty = ScalarT)
+                  \/ (c.naming # {} /\ ~c.useops /\ (c.inline => g.inits # <<>>) /\ ~c.skip /\ c.xty = ScalarT)
+                  \/ (c.naming = {} /\ c.xty # ScalarT /\ ~c.useops /\ ~c.inline /\ ~c.skip /\ (c.rename => c.xty.form = "dims"))
+               /\ (g.len >= 2 => c.xty = ScalarT)
+               /\ (c.xty.form = "dims" => ShapeGraph)
                /\ (~Thorough /\ g.len >= 2 /\ g.pk = "const" /\ ~g.attr => c.inline /\ ~c.rename /\ ~c.skip)
                /\ (~Thorough /\ Cardinality(c.naming) = 2 => ~c.rename)     \* short names collide exactly like cleaned ones
                /\ (Thorough /\ Cardinality(c.naming) = 2 /\ c.rename => Canonical(c.naming))
@@ -680,14 +710,15 @@ ConfigOK(c) == /\ \/ (c.naming = {} /\ c.xty = "scalar")
 Cfg(kind, rn, uo, ic, sk, nm, xty) == [kind |-> kind, rename |-> rn, useops |-> uo, inline |-> ic, skip |-> sk, naming |-> nm, xty |-> xty]
 \* the three slices of the configuration space, built directly (ConfigOK filters the tier-specific rest)
 Configs(kind) ==
-  {Cfg(kind, rn, uo, ic, sk, {}, "scalar") : rn \in Bools, uo \in Bools, ic \in Bools, sk \in Bools}
-  \cup {Cfg(kind, rn, FALSE, ic, FALSE, nm, "scalar") : rn \in Bools, ic \in (IF g.inits # <<>> THEN Bools ELSE {FALSE}),
+  {Cfg(kind, rn, uo, ic, sk, {}, ScalarT) : rn \in Bools, uo \in Bools, ic \in Bools, sk \in Bools}
+  \cup {Cfg(kind, rn, FALSE, ic, FALSE, nm, ScalarT) : rn \in Bools, ic \in (IF g.inits # <<>> THEN Bools ELSE {FALSE}),
                                                          nm \in {n \in Namings : n # {} /\ WellFormedNaming(n)}}
-  \cup {Cfg(kind, FALSE, FALSE, FALSE, FALSE, {}, "anyrank")}
+  \cup {Cfg(kind, FALSE, FALSE, FALSE, FALSE, {}, AnyRankT)}
+  \cup (IF ShapeGraph THEN {Cfg(kind, rn, FALSE, FALSE, FALSE, {}, DimsT(sh)) : rn \in Bools, sh \in ShapeMenu} ELSE {})
 Configure ==
   /\ stage = "gen" /\ g.len >= 1
   /\ \E kind \in Kinds : \E c \in Configs(kind) :
-       /\ (kind = "function" => ~c.skip /\ c.xty = "scalar")           \* no effect on FunctionProto export
+       /\ (kind = "function" => ~c.skip /\ c.xty = ScalarT)           \* no effect on FunctionProto export
        /\ ConfigOK(c)
        /\ cfg' = c
   /\ stage' = "index"
@@ -710,11 +741,12 @@ IndexNames ==
             pyc |-> PyTable({"cleanup_collision"}, CleanTab), pyu |-> PyTable({}, CleanTab),
             baseu |-> [i \in SeqSet(AllIds) |-> BaseName(i, {}, CleanTab)],
             attrty |-> IF \E i \in 1..Len(fl) : fl[i].k = "attrconst" THEN "float" ELSE "int",
-            params |-> <<>>, code |-> <<>>, rets |-> <<>>, err |-> ""]
+            ann |-> [ann |-> "none", subs |-> <<>>], params |-> <<>>, code |-> <<>>, rets |-> <<>>, err |-> ""]
   /\ stage' = "sig"
   /\ UNCHANGED <<g, cfg, res>>
 TranslateSignature ==
-  /\ stage = "sig" /\ ex' = [ex EXCEPT !.params = SigParams(Deviations)] /\ stage' = "inits" /\ UNCHANGED <<g, cfg, res>>
+  /\ stage = "sig" /\ ex' = [ex EXCEPT !.params = SigParams(Deviations), !.ann = IF IsModel THEN SigAnn ELSE @]     \* _translate_signature / _translate_type
+  /\ stage' = "inits" /\ UNCHANGED <<g, cfg, res>>
 TranslateInitializers ==
   /\ stage = "inits" /\ ex' = [ex EXCEPT !.code = TrInits(Deviations)] /\ stage' = "nodes" /\ UNCHANGED <<g, cfg, res>>
 TranslateTopNode ==
